@@ -6,20 +6,22 @@ prop("C13", pkg="c13",
           "reflection (values with multi-entry maps: thriftspec-decoded, compared as content and re-encoded to the same bytes); 'readers' (20%) - thriftspec bytes with "
           "long field/list headers where a short form exists, rotated/reversed field order and the other binary message-header form, read back through the Reader "
           "methods; 'unmarshal' (20%) - the same alternatives given to Unmarshal of a tgen type. Protocol: binary strict 25%, non-strict 25%, compact 50%. Each clause "
-          "of the specification that the library is listed (known_findings.json) to deviate from is replaced, on the expected side only, by the library's variant "
-          "(thriftspec.Dialect) so that all other clauses stay compared; every case whose bytes depend on such a clause is counted in excluded_known under that class. "
+          "of the specification that the library is listed (known_findings.json, status known) to deviate from is replaced, on the expected side only, by the library's "
+          "variant (thriftspec.Dialect) so that all other clauses stay compared, and every case whose bytes depend on it is counted in excluded_known. Of the seven "
+          "deviations found six are repaired in /repo (listed fixed, compared against the unmodified specification, witnesses run as regression cases); only "
+          "KF-C13-005 (binary type ids) is still known and normalised. "
           "Non-trivial = content with >= 1 container or >= 3 fields; distinct = FNV-64 of the serialised case.",
      quick=dict(shards=16, scale=1, timeout=600),
-     thorough=dict(shards=16, scale=4, timeout=3000),
+     thorough=dict(shards=16, scale=3, timeout=3000),
      technique="differential property-based testing (rapid) against a transcription of the Apache Thrift binary and compact protocol specifications "
                "(encoder and decoder written in the harness, not sharing code with the library)",
-     level_text="Exploration: ~0.96 M cases per quick run; Writer and Marshal output must equal the specification's bytes and every generated conformant alternative "
+     level_text="Exploration: ~1.28 M cases per quick run (~3.8 M thorough); Writer and Marshal output must equal the specification's bytes and every generated conformant alternative "
                 "encoding must be read back to the same content by the Reader methods and by Unmarshal. Deviations already listed are normalised clause by clause and "
                 "counted; any other byte difference is reported with the shrunk content tree, observed and expected bytes.",
      level_note="Trusted base: harness/thriftspec, my reading of thrift-binary-protocol.md and thrift-compact-protocol.md, limited to the clauses the property statement "
                 "names (type ids, endianness, zig-zag ULEB128, field/list/map/message headers, one-byte STOP). The byte of a false bool element in a compact collection "
                 "is not asserted (0 and 2 both accepted). Message seqids are non-negative. Writer calls follow the struct encoder's convention (Delta for 1..15, absolute "
-                "above; an absolute id <= 15 is never requested). Struct types with id ranges beyond the decoder bitmap and union structs are not generated here (C04).",
+                "above; an absolute id <= 15 is never requested).",
      assumptions=["harness/thriftspec is a faithful transcription of the two specifications for the clauses listed in DESIGN.md section 3 (R-THRIFT)",
                   "the logical content of a struct value is: fields by ascending id, nil pointers and Go zero values of non-required fields absent, enum fields as i32",
                   "while a clause is listed as a known deviation the library is fed its own variant of that clause in the reader direction (it cannot read what it does not write)"])
